@@ -130,6 +130,28 @@ Theorem C13_source_align_fits_is_the_models :
   forall ptr a, pow2 a -> 0 <= ptr -> AllocSites.is_aligned_to ptr a = Ok (divides a ptr).
 Proof. exact is_aligned_to_refines. Qed.
 
+(* the typed twin of shrink - BumpScope's shrink_slice, "adapted from Allocator::shrink" - computes, for old_len / new_len
+   elements of size es and alignment ea, exactly the terms of the Allocator path (sizes len * es, alignment ea): the
+   typed fast path and the generic layout path agree and reclaim the same bytes (cut out of
+   traits/bump_allocator_typed.rs and translated on every run) *)
+Theorem C13_source_typed_shrink_is_the_models :
+  forall ptr old_len new_len es ea m pos,
+  valid_min_align m -> pow2 ea -> ea < W -> 0 <= ptr -> 0 <= es -> 0 <= new_len <= old_len ->
+  ptr + old_len * es + m - 1 < W -> old_len * es < W ->
+  let osize := old_len * es in let nsize := new_len * es in
+  let new_addr := down_alignZ (Z.max (ptr + osize - nsize) 0) (Z.max ea m) in
+  AllocSites.typed_shrink_old_size old_len es = Ok osize /\
+  AllocSites.typed_shrink_new_size new_len es = Ok nsize /\
+  AllocSites.typed_is_last_up ptr osize pos = Ok (ptr + osize =? pos) /\
+  AllocSites.typed_is_last_down ptr pos = Ok (ptr =? pos) /\
+  AllocSites.typed_shrink_up_end ptr nsize = Ok (ptr + nsize) /\
+  AllocSites.typed_shrink_up_new_pos (ptr + nsize) m = Ok (up_alignZ (ptr + nsize) m) /\
+  AllocSites.typed_shrink_down_old_end ptr osize = Ok (ptr + osize) /\
+  AllocSites.typed_shrink_down_new_addr (ptr + osize) nsize ea m = Ok new_addr /\
+  AllocSites.typed_shrink_down_new_end ptr nsize = Ok (ptr + nsize) /\
+  AllocSites.typed_shrink_down_overlaps (ptr + nsize) new_addr = Ok (new_addr <? ptr + nsize).
+Proof. exact typed_shrink_refines. Qed.
+
 Print Assumptions C13_dealloc_then_alloc_same_address_up.
 Print Assumptions C13_grow_newest_in_place_up.
 Print Assumptions C13_dealloc_optout_keeps_stats.
@@ -147,3 +169,4 @@ Print Assumptions C13_source_dealloc_position_is_the_models.
 Print Assumptions C13_source_shrink_up_is_the_models.
 Print Assumptions C13_source_shrink_down_is_the_models.
 Print Assumptions C13_source_align_fits_is_the_models.
+Print Assumptions C13_source_typed_shrink_is_the_models.
